@@ -95,6 +95,7 @@ func busyChild(total int, seed int64) {
 		out.Note = "cannot join the stats topic"
 		return
 	}
+	log.SetLevel(log.TraceLevel) // this relay runs at trace level (output discarded): nothing may change
 	now := time.Now().Unix()
 	exp := expiryValue(r, now)
 	mk := func(ua string, scopes ...string) Ident {
